@@ -203,8 +203,11 @@ def run(ck: Checker):
     from .. import num_folds
     num_folds.fold_bit_counters(ck, 'C07.NUM')
     ck.floor('C07.NUM', 5)
-    worklist_rule(ck)
-    transpose_rule(ck)
+    # shape rules about the same loops (they state the clause for any number of operands, but know one way of writing the loops)
+    with ck.soft('C07.NUM (bit counters and weighted sums instantiated as they stand)'):
+        worklist_rule(ck)
+    with ck.soft('C07.NUM (add_sum_pow2_m1 instantiated as it stands)'):
+        transpose_rule(ck)
     n_ts = basis_rules(ck, [SUM], public)
     ck.need(n_ts >= 2, f'only {n_ts} basis comparisons found in summation.py (5 on the pinned tree)')
     ck.floor('C07.BASIS-REACH', 10)
